@@ -732,10 +732,7 @@ func (d *structDecoder) DecodeStream(s *Stream, depth int64, p unsafe.Pointer) e
 		s.cursor++
 		return nil
 	}
-	var (
-		seenFields   map[int]struct{}
-		seenFieldNum int
-	)
+	var seenFields map[int]struct{}
 	firstWin := (s.Option.Flags & FirstWinOption) != 0
 	if firstWin {
 		seenFields = make(map[int]struct{}, d.fieldUniqueNameNum)
@@ -764,10 +761,8 @@ func (d *structDecoder) DecodeStream(s *Stream, depth int64, p unsafe.Pointer) e
 					if err := field.dec.DecodeStream(s, depth, unsafe.Pointer(uintptr(p)+field.offset)); err != nil {
 						return err
 					}
-					seenFieldNum++
-					if d.fieldUniqueNameNum <= seenFieldNum {
-						return s.skipObject(depth)
-					}
+					// ( the members that follow are stepped over one by one like any member that is not
+					// decoded: the rest of the object is checked as it is without the option )
 					seenFields[field.fieldIdx] = struct{}{}
 				}
 			} else {
@@ -820,10 +815,7 @@ func (d *structDecoder) Decode(ctx *RuntimeContext, cursor, depth int64, p unsaf
 		cursor++
 		return cursor, nil
 	}
-	var (
-		seenFields   map[int]struct{}
-		seenFieldNum int
-	)
+	var seenFields map[int]struct{}
 	firstWin := (ctx.Option.Flags & FirstWinOption) != 0
 	if firstWin {
 		seenFields = make(map[int]struct{}, d.fieldUniqueNameNum)
@@ -859,10 +851,8 @@ func (d *structDecoder) Decode(ctx *RuntimeContext, cursor, depth int64, p unsaf
 						return 0, err
 					}
 					cursor = c
-					seenFieldNum++
-					if d.fieldUniqueNameNum <= seenFieldNum {
-						return skipObject(buf, cursor, depth)
-					}
+					// ( the members that follow are stepped over one by one like any member that is not
+					// decoded: the rest of the object is checked as it is without the option )
 					seenFields[field.fieldIdx] = struct{}{}
 				}
 			} else {
